@@ -77,6 +77,20 @@ PROPS["C10"] = dict(
     assumptions=["ZERO extents and extent names containing directories or quotes are outside the property's enumeration and are not generated"],
 )
 
+PROPS["C13"] = dict(
+    engine="lazy", level="exploration", quick=1500, thorough=60000,
+    rule=("one evaluation = one seeded large image (virtual size GiB..tens of TiB, host offsets beyond 2^32 bytes / 2^32 sectors) "
+          "opened and read at extreme offsets twice: once sparse, once with hundreds to thousands of additional allocation units "
+          "outside the requested ranges. Oracles: byte ledger of the storage fake within K*(request + 2*buffer) + K*mapping-metadata "
+          "touched; identical ledgers for the sparse/dense pair; content equals the model. distinct = (format, features, size "
+          "class, near/far offset, request size class) tuples; non-trivial = the request lies beyond 4 GiB."),
+    expected_probes=["lazy.fmt_" + f for f in ("qcow2", "vmdk", "vhdx", "vhd", "vdi", "hds")] +
+                    ["lazy.virtual_size_ge_1TiB", "lazy.virtual_size_ge_16TiB", "lazy.more_than_2^32_sectors", "lazy.metamorphic_pair",
+                     "lazy.host_file_ge_4GiB", "lazy.host_file_ge_2^32_sectors"],
+    assumptions=["budget constants K_REQ=4, K_META=4, C_REQ=256KiB, K_OPEN=4, C_OPEN=1MiB (reading a table twice stays inside them)",
+                 "the dense variant adds allocations only in mapping tables no request touches, so correct lazy code must produce the same ledger"],
+)
+
 NOT_BUILT_REASON = "check not built yet in this session (see DESIGN.md section 11 for the build order); not claimed until its engine exists"
 
 NOT_APPLICABLE = {
@@ -91,6 +105,10 @@ _DISK_NOTE = ("trusted base: the writer stub's reading of the format, the refere
 _DISK_TECH = "deterministic simulation (stub writer peer + simulated storage + reference model oracle), seeded search, ddmin replay"
 
 MANIFEST_TEXT = {
+    "C13": dict(text="seeded deterministic simulation on sparse virtual storage with an I/O ledger: absolute budgets, a sparse/dense "
+                     "metamorphic pair with identical expected ledgers, and content at extreme offsets; sampled",
+                design_ref="DESIGN.md 4/C13", note=_DISK_NOTE + "; budget constants are generous and linear in request + touched metadata",
+                technique="deterministic simulation with seam-side I/O accounting (storage ledger), metamorphic sparse/dense pair, reference model"),
     "C10": dict(text="seeded deterministic simulation of descriptor-driven multi-file disks on a simulated namespace (incl. missing-extent "
                      "faults); concatenation reference model; sampled",
                 design_ref="DESIGN.md 4/C10", note=_DISK_NOTE, technique="deterministic simulation (multi-file worlds on a simulated namespace, missing-file fault), concatenation model, ddmin replay"),
